@@ -467,7 +467,7 @@ def run_family(ck: Check, drv, fam, sibs, runs=None):
     for name, cases in [("base", fam["cases"])] + sibs:
         try:
             rn = ku.run(run_test(kind, fn_spec, dict(base, testCases=copy.deepcopy(cases))))
-        except Infra:
+        except (Infra, g.FunctionRaised):
             raise
         except Exception as e:
             ck.violate({"type": "family", "kind": kind, "fn_spec": fn_spec, "base": base, "cases": cases},
@@ -500,7 +500,7 @@ def shrink_family(fam, cases_a, cases_b):
         return family_violations(fam["kind"], fam["fn_spec"], fam["base"], a, b) is not None
 
     try:
-        keep = ddmin(labels, fails)
+        keep = ddmin(labels, fails)   # (ddmin treats a raising candidate as "does not fail")
     except Exception:
         keep = labels
     ks = set(keep)
@@ -520,11 +520,19 @@ def explore(ck: Check, drv: LeanDriver, r, n: int):
 def _explore_chunk(ck: Check, drv: LeanDriver, r, n: int):
     requests, expect = [], []
     for _ in range(n):
-        fam = ku.run(gen_family(r))
+        try:
+            fam = ku.run(gen_family(r))
+        except g.FunctionRaised as e:
+            ck.count("skipped:function-under-test-raised")
+            continue
         if not fam["cases"]:
             continue
         sibs = gen_siblings(r, fam)
-        runs = run_family(ck, drv, fam, sibs)
+        try:
+            runs = run_family(ck, drv, fam, sibs)
+        except g.FunctionRaised:
+            ck.count("skipped:function-under-test-raised")
+            continue
         if not runs:
             continue
         ck.count(f"family:{fam['kind']}")
@@ -598,6 +606,8 @@ def check_case(case: dict):
         return family_violations(case["kind"], case["fn_spec"], case["base"], a, b)
     except Infra:
         raise
+    except g.FunctionRaised:
+        return None
     except Exception as e:
         return f"run_function_test raised {e!r}"
 
